@@ -1,4 +1,6 @@
 import ClusterVerif.Lemmas.C06S
+import ClusterVerif.Model.C06O
+import ClusterVerif.Spec.C06O
 
 /-!
 # C06 — reported pin status is truthful and consistent between its two views
@@ -598,5 +600,174 @@ theorem one_member_slice_needs_distinct :
   have := h 0 [(0, 16), (0, 4)]
   revert this
   decide
+
+
+/-! ## Round 8c — the operation tracker's getters (pintracker/optracker), interpreted from go/ast tables -/
+
+/-- the regenerated shapes are the ones the model's interpreter knows: `filter` compares `op.Type()` for an
+`OperationType` and `op.Phase()` for a `Phase` with `==` and keeps the operation; `filterOpsMap` returns nil without
+filters and chains the rest; `TrackNewOperation` keeps an operation of the same type that is neither in error nor done;
+the interpreted nested switch of `trackerStatus` equals the REAL `ToTrackerStatus` evaluated on types 0..5 x phases
+0..4 (unknown and out-of-range values included) and the rows the tracker model uses (`Gen.opStatus`). -/
+theorem gen_optracker :
+    Gen.optFilterArms = [(0, 0, 1), (1, 1, 1)] ∧ Gen.optFilterShape = [1, 1] ∧
+    Gen.trackKeep = [(0, 3, 1, 0), (1, 4, 0, 0), (1, 4, 0, 3)] ∧
+    (List.range 6).map (fun t => (List.range 5).map (fun ph => O.statusI t ph)) = Gen.opStatusFull ∧
+    (List.range 3).map (fun t => (List.range 4).map (fun ph => O.statusI (t + 1) ph)) = Gen.opStatus ∧
+    (Gen.trackerSwitch.all fun e => e.1 < 5 && e.2.1.all fun p => p.1 < 4) = true := by decide
+
+theorem lookupN_none {α : Type} (l : List (Nat × α)) (x : Nat) (h : ∀ e ∈ l, e.1 ≠ x) : O.lookupN l x = none := by
+  induction l with
+  | nil => rfl
+  | cons a r ih =>
+    have hk : a.1 ≠ x := h a (by simp)
+    have hr : ∀ e ∈ r, e.1 ≠ x := fun e he => h e (by simp [he])
+    cases a with
+    | mk k v =>
+      show (if k = x then some v else O.lookupN r x) = none
+      rw [if_neg hk]; exact ih hr
+
+/-- `Operation.ToTrackerStatus` for EVERY type and phase value (not only the named constants): the interpreted
+switch is the documented table, and anything outside it is `undefined` (0). -/
+theorem op_status_interp (t ph : Nat) : O.statusI t ph = SpecO.specStatus t ph := by
+  have hfin : ∀ t' < 5, ∀ ph' < 4, O.statusI t' ph' = SpecO.specStatus t' ph' := by decide
+  have hhi : ∀ t' < 5, (match O.lookupN Gen.trackerSwitch t' with
+      | none => Gen.trackerSwitchDefault
+      | some (_, d) => d) = SpecO.specStatus t' 4 := by decide
+  have hinner : ∀ t' < 5, (match O.lookupN Gen.trackerSwitch t' with
+      | none => true
+      | some (inner, _) => inner.all (fun p => decide (p.1 < 4))) = true := by decide
+  by_cases h5 : t < 5
+  · by_cases h4 : ph < 4
+    · exact hfin t h5 ph h4
+    · have hs : SpecO.specStatus t ph = SpecO.specStatus t 4 := by
+        have e0 : (ph == 0) = false := by rw [beq_eq_false_iff_ne]; omega
+        have e1 : (ph == 1) = false := by rw [beq_eq_false_iff_ne]; omega
+        have e2 : (ph == 2) = false := by rw [beq_eq_false_iff_ne]; omega
+        have e3 : (ph == 3) = false := by rw [beq_eq_false_iff_ne]; omega
+        simp [SpecO.specStatus, e0, e1, e2, e3]
+      rw [hs, ← hhi t h5]
+      unfold O.statusI
+      cases hl : O.lookupN Gen.trackerSwitch t with
+      | none => rfl
+      | some v =>
+        cases v with
+        | mk inner d =>
+          have hin := hinner t h5
+          rw [hl] at hin
+          have hall : ∀ x ∈ inner, x.1 < 4 := by simpa using hin
+          have hn : O.lookupN inner ph = none :=
+            lookupN_none inner ph (fun e he => by have := hall e he; omega)
+          simp [hn]
+  · have hn : O.lookupN Gen.trackerSwitch t = none :=
+      lookupN_none _ t (fun e he => by
+        have hb : ∀ e ∈ Gen.trackerSwitch, e.1 < 5 := by decide
+        have := hb e he; omega)
+    have e1 : (t == 1) = false := by rw [beq_eq_false_iff_ne]; omega
+    have e2 : (t == 2) = false := by rw [beq_eq_false_iff_ne]; omega
+    have e3 : (t == 3) = false := by rw [beq_eq_false_iff_ne]; omega
+    have e4 : (t == 4) = false := by rw [beq_eq_false_iff_ne]; omega
+    unfold O.statusI
+    rw [hn]
+    simp [SpecO.specStatus, e1, e2, e3, e4, Gen.trackerSwitchDefault]
+
+example : O.statusI 1 2 = 32 ∧ O.statusI 3 77 = 256 ∧ O.statusI 9 1 = 0 ∧ O.statusI 2 4 = 0 := by decide
+
+theorem matchesF_type (v : Nat) (o : O.TOp) : O.matchesF ⟨0, v⟩ o = (o.typ == v) := by
+  first | rfl | simp [O.matchesF, Gen.optFilterArms]
+
+theorem matchesF_phase (v : Nat) (o : O.TOp) : O.matchesF ⟨1, v⟩ o = (o.ph == v) := by
+  first | rfl | simp [O.matchesF, Gen.optFilterArms]
+
+theorem mem_filterChain (fs : List O.Flt) (m : List O.TOp) (o : O.TOp) :
+    o ∈ O.filterChain fs m ↔ o ∈ m ∧ ∀ f ∈ fs, O.matchesF f o = true := by
+  induction fs generalizing m with
+  | nil => simp [O.filterChain]
+  | cons f fs ih =>
+    first
+      | simp only [O.filterChain, ih, List.mem_filter, List.mem_cons, forall_eq_or_imp, and_assoc]
+      | simp [O.filterChain, ih, and_assoc]
+
+/-- `Filter(filters...)` / `filterOps(filters...)` with at least one filter: exactly the tracked operations that
+match EVERY filter — for every operation map, every filter list (any length, repeated filters, unknown values). -/
+theorem filter_ops_law (fs : List O.Flt) (m : List O.TOp) (o : O.TOp) (hne : fs ≠ []) :
+    o ∈ O.filterOps fs m ↔ o ∈ m ∧ ∀ f ∈ fs, O.matchesF f o = true := by
+  have h1 : Gen.optFilterShape.headD 99 = 1 := by decide
+  have h2 : (Gen.optFilterShape.tail.headD 0 == 1) = true := by decide
+  have hl : ¬ fs.length < 1 := by
+    cases fs with
+    | nil => exact absurd rfl hne
+    | cons a r => simp
+  rw [O.filterOps, h1, if_neg hl, if_pos h2]
+  exact mem_filterChain fs m o
+
+example : O.filterOps [⟨0, 1⟩, ⟨1, 0⟩] [⟨0, 1, 0⟩, ⟨1, 1, 2⟩, ⟨2, 2, 0⟩] = [⟨0, 1, 0⟩] := by decide
+
+/-- without any filter the getter returns NOTHING (nil), not every operation -/
+theorem filter_ops_nofilter (m : List O.TOp) : O.filterOps [] m = [] := by
+  have h1 : Gen.optFilterShape.headD 99 = 1 := by decide
+  rw [O.filterOps, h1]; rfl
+
+/-- refutation of the reading "no filter = everything" -/
+theorem filter_ops_nofilter_not_all : ¬ ∀ m, O.filterOps [] m = m := by
+  intro h
+  have h' := h [⟨0, 1, 1⟩]
+  rw [filter_ops_nofilter] at h'
+  cases h'
+
+/-- the order (and repetition) of the filters does not matter -/
+theorem filter_ops_order (fs gs : List O.Flt) (m : List O.TOp) (o : O.TOp) (hne : fs ≠ [])
+    (hp : ∀ f, f ∈ fs ↔ f ∈ gs) : o ∈ O.filterOps fs m ↔ o ∈ O.filterOps gs m := by
+  have hg : gs ≠ [] := by
+    cases fs with
+    | nil => exact absurd rfl hne
+    | cons a r =>
+      intro h
+      have h3 := (hp a).mp (by simp)
+      rw [h] at h3
+      simp at h3
+  rw [filter_ops_law fs m o hne, filter_ops_law gs m o hg]
+  exact ⟨fun ⟨a, b⟩ => ⟨a, fun f hf => b f ((hp f).mpr hf)⟩, fun ⟨a, b⟩ => ⟨a, fun f hf => b f ((hp f).mp hf)⟩⟩
+
+/-- asking for one type AND one phase lists only entries with the status `ToTrackerStatus` gives that pair, and
+every listed entry is an entry of `GetAll` — the filtered getter is the unfiltered one restricted. -/
+theorem filter_type_phase_status (m : List O.TOp) (t p : Nat) (e : Nat × Nat)
+    (h : e ∈ O.filterInfos [⟨0, t⟩, ⟨1, p⟩] m) : e.2 = O.statusI t p ∧ e ∈ O.getAll m := by
+  unfold O.filterInfos O.getAll at h
+  obtain ⟨o, ho, he⟩ := List.mem_map.mp h
+  have hm := (filter_ops_law _ m o (by simp)).mp ho
+  have h0 := hm.2 ⟨0, t⟩ (by simp)
+  have h1 := hm.2 ⟨1, p⟩ (by simp)
+  rw [matchesF_type] at h0
+  rw [matchesF_phase] at h1
+  have h0' : o.typ = t := by simpa using h0
+  have h1' : o.ph = p := by simpa using h1
+  constructor
+  · rw [← he, h0', h1']
+  · unfold O.getAll
+    exact List.mem_map.mpr ⟨o, hm.1, he⟩
+
+example : (2, 8) ∈ O.filterInfos [⟨0, 2⟩, ⟨1, 0⟩] (O.trackAll [⟨2, 1, 1⟩, ⟨2, 2, 0⟩, ⟨3, 2, 1⟩]) := by decide
+
+/-! ### direction (4): `Cluster.Status(cid)` of a one-member cluster -/
+
+/-- a one-member cluster (follower or not): `globalPinInfoCid` of a pin allocated to the member, or pinned
+everywhere, is exactly the member's own report — for every status the member reports. -/
+theorem one_member_cid (self st : Nat) (pin : Pin) (fol : Bool) (h : pin.everywhere = true ∨ pin.allocs = [self]) :
+    globalCid { self := self, follower := fol, members := [self], pin := some pin, replies := [(self, Reply.ok st)] }
+      = [(self, st)] := by
+  have hr : replyOf [(self, Reply.ok st)] self = Reply.ok st := by simp [replyOf]
+  cases fol with
+  | true => simp [globalCid, destsOf, setAll, gAdd, hr]
+  | false =>
+    cases h with
+    | inl he => simp [globalCid, destsOf, setAll, gAdd, hr, he]
+    | inr ha =>
+      by_cases he : pin.everywhere = true
+      · simp [globalCid, destsOf, setAll, gAdd, hr, he]
+      · simp [globalCid, destsOf, setAll, gAdd, hr, he, ha, peersSubtract]
+
+example : globalCid { self := 3, follower := false, members := [3], pin := some (Pin.mk false 1 1 [3] (-1)), replies := [(3, Reply.ok 16)] }
+    = [(3, 16)] := by decide
 
 end CV.C06
